@@ -71,3 +71,19 @@ chk(
     "runtime monitoring: interpretation of emitted size code; execution trace of buffer uses checked offline for overlap of live address ranges (hostile allocator)",
     "DESIGN.md section 3 C11",
 )
+chk(
+    "C19",
+    "exploration",
+    "Differential monitors on the real functions over seeded inputs: canonicalize_expr/canonicalize_map (evaluation equal on a full small box plus random points, idempotent, RecursionError/watchdog = violation), AffineTransform.from_affine_map/to_affine_map/compose/eval against direct integer arithmetic, AccessPattern.canonicalize/inner_dims (same access sequence / equals the restriction), StridePattern.canonicalize (identical temporal address sequence and spatial set incl. zero/unit bounds and zero strides) and print->parse, pack_bitlist (emitted arith ops verified and interpreted == OR_i(v_i<<o_i) mod 2^w for int/SSA/Operation inputs, lengths 0..9), StreamerConfigurationAttr print->parse compared structurally. Held on the executions observed (per-function call/evaluation counters in evidence); sampled, not exhaustive.",
+    TB + "oracle-side affine evaluator and generators in vf/gen/affine_gen.py; index 0 = innermost temporal loop. One known finding (streamer-config text form drops the system type) attributed by predicate (only `system` differs, config not reg) + counterfactual vf/counterfactual/streamer_text.py. Exceptions of the functions under test are rejections.",
+    "runtime monitoring: differential evaluation / contracts on real pure functions, interpretation of emitted ops, print-parse round trips",
+    "DESIGN.md section 3 C19",
+)
+chk(
+    "C10",
+    "exploration",
+    "Every generated tiled-strided layout (exhaustive small box: quick samples it, thorough enumerates all 48 984; random up to rank 4 x depth 3 with unit bounds, repeated steps, offsets, dynamic outermost bound/step/offset) is compared at every logical index with the independent reference function (vf/ref/layout.py) through each real view: get_affine_map, get_bound_ops/get_step_ops (emitted ops interpreted at concrete runtime shapes/strides, elements and bytes, tsl and strided memrefs), all_values/self_overlaps/is_dense, print->parse through the xDSL parser, from_strides, canonicalize (function, shape, idempotence), largest_common_contiguous_block (contiguous chain from the starting stride, each stride at a common (dim,depth)), and the real convert-memref-to-arith pass on subviews of TSL memrefs (pointer difference interpreted for 4 runtime vectors). Held on the executions observed apart from the listed known findings.",
+    TB + "reference layout function vf/ref/layout.py incl. the dynamic-step contiguity convention; memref.dim/extract_strided_metadata handlers in vf/checks/C10.py; aligned pointer excludes the layout offset. Known findings are attributed by structural predicate + counterfactual (vf/counterfactual/tsl_views.py). Steps of 0 are out of domain (counted only).",
+    "runtime monitoring: differential views of the real layout code against an independent reference, interpretation of emitted ops, pass-level pointer validation",
+    "DESIGN.md section 3 C10",
+)
